@@ -25,7 +25,10 @@ type Unspecified struct{ Why string }
 type rtError struct{ msg string }
 type breakSig struct{}
 type contSig struct{}
-type retSig struct{ v Value }
+type retSig struct {
+	v Value
+	t *Type // static type of the returned expression
+}
 
 // Outcome of running a program under the reference semantics.
 type Outcome struct {
@@ -258,9 +261,9 @@ func (m *Machine) stmt(e *env, s Stmt) any {
 		return contSig{}
 	case *Return:
 		if x.X == nil {
-			return retSig{nil}
+			return retSig{nil, nil}
 		}
-		return retSig{Copy(m.eval(e, x.X))}
+		return retSig{Copy(m.eval(e, x.X)), x.X.Ty()}
 	case *ExprStmt:
 		m.eval(e, x.X)
 	case *Print:
@@ -962,7 +965,7 @@ func (m *Machine) call(e *env, x *Call) Value {
 		if r.v == nil {
 			return nil
 		}
-		return r.v
+		return Convert(r.v, r.t, f.Ret)
 	}
 	if f.Ret.K != KVoid {
 		panic("cdm: value function fell off its end")
